@@ -222,7 +222,11 @@ func monC04(op J, res any) (viol []Violation, nontrivial bool) {
 			continue
 		}
 		for id := range lastEnd {
+			// voted out (possibly re-added in the same round: then its validity start is missing for a round)
 			if _, ok := cur.defs[id]; !ok {
+				dropped[id] = true
+			}
+			if _, ok := cur.va[id]; !ok {
 				dropped[id] = true
 			}
 		}
@@ -248,6 +252,14 @@ func monC04(op J, res any) (viol []Violation, nontrivial bool) {
 	if rr != nil {
 		for _, e := range jArr(rr["va"]) {
 			rrVA[jU32(jget(e, "id"))] = jU64(jget(e, "va"))
+		}
+	}
+	for _, rd := range jArr(op["roundsA"]) {
+		vc := countVotes(jArr(jget(rd, "obs")), []any{})
+		for id, v := range vc.rm {
+			if v > jCfg(op["cfgA"]).F {
+				dropped[id] = true
+			}
 		}
 	}
 	// the retirement report must record, for a channel that reported and stayed defined, where its last window
